@@ -19,7 +19,8 @@ from leanio import dec_str
 from main import Result
 
 HEALTHY = ["a.txt", "b.txt", "c dir", "m.html", "z.bin"]
-FAULTS = ["dangling", "fifo", "socket", "vanish", "dotdot..name", "dot.\\bs", "back\\\\slash", ".dangling", ".fifo", "loop"]
+FAULTS = ["dangling", "fifo", "socket", "vanish", "dotdot..name", "dot.\\bs", "back\\\\slash", ".dangling", ".fifo", "loop", "gone.html", "noperm.html"]
+OPEN_FAULTS = ("gone.html", "noperm.html")     # stat succeeds, the open that follows fails (deleted in between / not readable)
 
 
 def plant(tree, d, fault):
@@ -47,6 +48,9 @@ def plant(tree, d, fault):
         s.bind(os.fsdecode(os.path.join(base, b"socket")))
         s.close()
         return "socket"
+    if fault in OPEN_FAULTS:
+        tree.write(d + "/" + fault, b"<html><head><title>Page that cannot be opened</title></head></html>")
+        return fault
     if fault == "vanish":
         tree.write(d + "/vanish", b"soon gone\n")
         return "vanish"
@@ -66,10 +70,27 @@ class vanishing:
                 raise FileNotFoundError(2, "No such file or directory")
             return self.orig(path, *a, **k)
         os.stat = fake
+        # ... and a member that is still there for stat but cannot be opened a moment later
+        import builtins
+        import pygopherd.handlers.base as hb
+        self.hb = hb
+
+        def fake_open(path, *a, **k):
+            p = os.fsencode(path) if not isinstance(path, int) else b""
+            if p.endswith(b"/gone.html"):
+                raise FileNotFoundError(2, "No such file or directory")
+            if p.endswith(b"/noperm.html"):
+                raise PermissionError(13, "Permission denied")
+            return builtins.open(path, *a, **k)
+        hb.open = fake_open
         return self
 
     def __exit__(self, *a):
         os.stat = self.orig
+        try:
+            del self.hb.open
+        except AttributeError:
+            pass
 
 
 def run(ctx):
@@ -120,7 +141,7 @@ def run(ctx):
                         # which healthy entries are missing?
                         res.violation("C12:entries-lost:" + hname, "the listing with an unservable entry differs from the listing without it", inp,
                                       observed=got[:400], required=want[:400], replay=rp)
-                    if view == "gopher" and not gplus:
+                    if view == "gopher" and not gplus and not any(f in OPEN_FAULTS for f in faults):
                         names = sorted(os.fsdecode(x) for x in os.listdir(tree.path("f")))
                         with vanishing():
                             model_lines.append(dirmodel.request(tree, cfg, "/f", names, umn=umn))
